@@ -5,6 +5,14 @@ import json
 ALL = [f"C{i:02d}" for i in range(1, 20)]
 
 CHECKS = {
+    "C12": dict(
+        category="model_checking", engine="E4+E1", design_ref="DESIGN.md 2.4, 3/C12",
+        technique="exhaustive exploration of the environment's answers (set-iteration order at every reached site, id() direction) within a deviation bound, on the real generator loaded through an owning AST transform; plus bounded real hash-seed sweep and route comparison",
+        text=("The code generator modules of the current tree are imported through a transform that turns every set(...) call / display / comprehension and id() into explorer choice points. For each "
+              "source set of the corpus (xsd with cycles, two namespaces, unions, enums; upstream xsd / dtd / wsdl / xml / json fixtures) every choice vector with <= 1 (thorough 2) non-default answers "
+              "must produce byte-identical files to the canonical-order run. Real PYTHONHASHSEED 0..3 (thorough 0..31) in fresh processes validates the owned model and covers C-level derived sets; "
+              "generating twice in one process and API vs config-file vs CLI-flag routes for 13 option deviations are compared byte for byte."),
+        note="stand-ins for jinja2/click/toposort/ruff (shims/, conformance-checked against upstream fixtures); bytes compared before ruff; include_header excluded"),
     "C10": dict(
         category="exploration", engine="E1+E5", design_ref="DESIGN.md 3/C10",
         technique="bounded-exhaustive enumeration of injections (every slot x shape) x all 8 flag combinations against the property's decision table",
